@@ -105,8 +105,46 @@ fn c09_ssh_ecdsa(c: &mut Ctx, b: &Budget) {
 }
 
 /// C09 - signatures
+/// an envelope carrying many 'signed' assertions (countersigners, signatures with metadata, objects that are no signatures): each genuine
+/// signer verifies wherever its assertion sorts, alone, in thresholds and through the metadata door; a key that did not sign does not
+fn c09_many_signed(c: &mut Ctx, b: &Budget) {
+    for (round, total) in (if b.thorough { vec![17usize, 33, 40, 64, 100] } else { vec![17usize, 24, 40] }).into_iter().enumerate() {
+        c.begin("many-signed");
+        let e = if round % 2 == 0 { Envelope::new(format!("document {}", round)) } else { Envelope::new(format!("document {}", round)).add_assertion("k", round as u64).wrap_envelope() };
+        let n_real = total / 2;
+        let keys: Vec<(SigningPrivateKey, SigningPublicKey)> = (0..n_real).map(|k| [SignatureScheme::Ed25519, SignatureScheme::Schnorr, SignatureScheme::Ecdsa][k % 3].keypair()).collect();
+        let (meta_sk, meta_pk) = SignatureScheme::Ed25519.keypair();
+        let (_, stranger) = SignatureScheme::Ed25519.keypair();
+        let mut x = e.clone();
+        for (sk, _) in &keys { x = x.add_signature(sk); }
+        x = x.add_signature_opt(&meta_sk, None, Some(bc_envelope::SignatureMetadata::new().with_assertion(known_values::NOTE, "with metadata")));
+        // objects under 'signed' that are no signatures, and signatures of another message
+        for k in 0..(total - n_real - 1) { x = if k % 2 == 0 { x.add_assertion(known_values::SIGNED, format!("no signature {}", k)) } else { x.add_assertion(known_values::SIGNED, keys[k % n_real].0.sign(&b"another message".to_vec()).unwrap()) }; }
+        let n_signed = x.assertions_with_predicate(known_values::SIGNED).len();
+        c.count_n("signed-assertions", n_signed as u64);
+        for (k, (_, pk)) in keys.iter().enumerate() {
+            let got = guarded(|| x.has_signature_from(pk));
+            c.check("verifies-iff-signed", matches!(got, Ok(Ok(true))), "signature-lost", || format!("signer {} of {} on an envelope with {} 'signed' assertions: {:?}", k, n_real, n_signed, got.as_ref().map(|r| r.as_ref().map_err(|e| e.to_string()))));
+        }
+        let got = guarded(|| x.has_signature_from(&stranger));
+        c.check("verifies-iff-signed", matches!(got, Ok(Ok(false))), "foreign-key-accepted", || format!("a key that did not sign, among {} 'signed' assertions: {:?}", n_signed, got.as_ref().map(|r| r.as_ref().map_err(|e| e.to_string()))));
+        let got = guarded(|| x.has_signature_from_returning_metadata(&meta_pk).map(|m| m.is_some()));
+        c.check("metadata-door", matches!(got, Ok(Ok(true))), "signature-lost", || format!("the signature with metadata among {} 'signed' assertions: {:?}", n_signed, got.as_ref().map(|r| r.as_ref().map_err(|e| e.to_string()))));
+        let all: Vec<&dyn bc_envelope::Verifier> = keys.iter().map(|k| &k.1 as &dyn bc_envelope::Verifier).collect();
+        for t in [1usize, n_real / 2, n_real.saturating_sub(1).max(1), n_real] {
+            let got = guarded(|| x.has_signatures_from_threshold(&all, Some(t)));
+            c.check("threshold-iff", matches!(got, Ok(Ok(true))), "threshold", || format!("threshold {} of {} genuine signers among {} 'signed' assertions: {:?}", t, n_real, n_signed, got.as_ref().map(|r| r.as_ref().map_err(|e| e.to_string()))));
+        }
+        let mut with_stranger = all.clone(); with_stranger.push(&stranger);
+        let got = guarded(|| x.has_signatures_from_threshold(&with_stranger, Some(n_real + 1)));
+        c.check("threshold-iff", matches!(got, Ok(Ok(false))), "threshold", || "threshold above the number of genuine signers was met".into());
+        c.end();
+    }
+}
+
 pub fn c09(c: &mut Ctx, b: &Budget) {
     c09_ssh_ecdsa(c, b);
+    c09_many_signed(c, b);
     let sg = signers(b.thorough);
     let rounds = if b.thorough { b.scenarios / 10 } else { b.scenarios / 5 };
     for i in 0..rounds.max(10) {
@@ -409,10 +447,13 @@ pub fn c09_glue(c: &mut Ctx, b: &Budget) {
 pub fn c10(c: &mut Ctx, b: &Budget) {
     let schemes = [("x25519", EncapsulationScheme::X25519), ("mlkem512", EncapsulationScheme::MLKEM512), ("mlkem768", EncapsulationScheme::MLKEM768)];
     let rounds = (b.scenarios / 5).max(10);
-    for _ in 0..rounds {
+    for ri in 0..rounds {
         c.begin("recipients");
         let e = base_envelope(c, 2);
-        if e.subject().is_encrypted() || e.subject().is_elided() { c.end(); continue; }
+        // subjects in every form that can be encrypted: in clear, compressed, elided (a redacted document sent on), and a bare compressed envelope
+        let e = match ri % 5 { 1 => e.compress_subject().unwrap_or(e), 2 => { let s = e.subject(); if e.is_node() { e.elide_removing_target(&s) } else { e } }, 3 => e.subject().compress().unwrap_or(e), _ => e };
+        if e.subject().is_encrypted() || (!e.is_node() && e.is_elided()) { c.end(); continue; }
+        c.count(&format!("subject-form:{}", if e.subject().is_compressed() { "compressed" } else if e.subject().is_elided() { "elided" } else { "clear" }));
         let n = c.rng.range(1, 4);
         let mut keys = vec![];
         for _ in 0..n { let (name, s) = c.rng.pick(&schemes).clone(); let (sk, pk) = s.keypair(); c.count(&format!("scheme:{}", name)); keys.push((sk, pk)); }
@@ -880,6 +921,30 @@ pub fn c17(c: &mut Ctx, b: &Budget) {
             let got = guarded(|| a1.object_for_predicate(p.as_str()));
             if e.assertions_with_predicate(p.as_str()).is_empty() { c.check("salted-object-lookup", matches!(&got, Ok(Ok(ob)) if ob.extract_subject::<u64>().ok() == Some(o)), "salted-object-lookup", || format!("{:?}", got.map(|r| r.map(|_| ()).map_err(|e| e.to_string())))); }
         }
+        // objects of every kind - values that are random themselves (identifiers, nonces, salts, digests), dates, known values, structured and
+        // obscured envelopes: the assertion added as salted carries one salt of its own whatever it says, two such adds differ
+        if i % 3 == 0 {
+            let objects: Vec<(&str, Envelope)> = vec![
+                ("ARID", Envelope::new(bc_components::ARID::from_data_ref([i as u8; 32]).unwrap())), ("UUID", Envelope::new(bc_components::UUID::from_data([i as u8; 16]))),
+                ("Nonce", Envelope::new(CBOR::from(bc_components::Nonce::from_data([i as u8; 12])))), ("Salt", Envelope::new(bc_components::Salt::from_data(vec![i as u8; 16]))),
+                ("Digest", Envelope::new(bc_components::Digest::from_image([i as u8]))), ("Date", Envelope::new(dcbor::Date::from_timestamp(1_700_000_000.0 + i as f64))),
+                ("known value", Envelope::new(known_values::IS_A)), ("bytes", Envelope::new(CBOR::to_byte_string(vec![i as u8; 32]))), ("empty text", Envelope::new("")),
+                ("wrapped", e.wrap_envelope()), ("elided", Envelope::new("hidden").elide()), ("compressed", Envelope::new("a compressible object, a compressible object").compress().unwrap()),
+                ("node", Envelope::new("o").add_assertion("k", "v")), ("assertion", Envelope::new_assertion("k", "v"))];
+            for (kind, obj) in objects {
+                let pred = format!("typed{}", i);
+                let r1 = guarded(|| e.add_assertion_salted(pred.as_str(), obj.clone(), true)); let r2 = guarded(|| e.add_assertion_salted(pred.as_str(), obj.clone(), true));
+                let (x1, x2) = match (r1, r2) { (Ok(a), Ok(b2)) => (a, b2), _ => { c.check("no-panic", false, "salt-panic", || format!("add_assertion_salted with a {} object", kind)); continue; } };
+                let plain = Envelope::new_assertion(pred.as_str(), obj.clone());
+                let fresh: Vec<Envelope> = x1.assertions().into_iter().filter(|a| !e.assertions().iter().any(|y| y.digest() == a.digest())).collect();
+                c.check("salted-carries-one-salt", fresh.len() == 1 && fresh[0].subject().digest() == plain.digest() && fresh[0].assertions_with_predicate(known_values::SALT).len() == 1 && fresh[0].assertions().len() == 1, "salted-shape", || format!("object kind {}: {}", kind, fresh.iter().map(shape).collect::<Vec<_>>().join(" ")));
+                c.check("salted-adds-differ", x1.digest() != x2.digest(), "salts-equal", || format!("two salted adds of an assertion with a {} object are equal", kind));
+                if let Some(f) = fresh.first() { c.check("salted-decorrelates", f.digest() != plain.digest(), "salted-correlates", || format!("object kind {}", kind)); }
+                let both = guarded(|| x1.add_assertion_salted(pred.as_str(), obj.clone(), true));
+                c.check("salted-after-salted-adds", matches!(&both, Ok(bb) if bb.assertions().len() == x1.assertions().len() + 1), "salted-after-plain-dropped", || format!("a second salted add of the same assertion ({} object) added nothing", kind));
+            }
+            c.count("branch:salted-object-kinds");
+        }
         c.end();
     }
 }
@@ -968,6 +1033,31 @@ pub fn c18(c: &mut Ctx, b: &Budget) {
                 other => c.check("request-roundtrip", false, "request-roundtrip", || format!("{:?}", other.map(|r| r.map(|_| ()).map_err(|e| e.to_string())))),
             }
         }
+        // a parsed request is as good as a built one: edited after parsing (a parameter, an optional parameter, a note, a date) it encodes
+        // exactly like the built one edited the same way, and parses back to it
+        if date_kind != 3 {
+            if let Ok(Ok(parsed)) = guarded(|| Request::try_from(renv.clone())) {
+                let d0 = dcbor::Date::from_timestamp(86_400.0);
+                let edits: Vec<(&str, Box<dyn Fn(Request) -> Request>)> = vec![
+                    ("with_parameter", Box::new(|r: Request| r.with_parameter("added later", 7))),
+                    ("with_optional_parameter", Box::new(|r: Request| r.with_optional_parameter("optional", Some(8)).with_optional_parameter("absent", None::<u64>))),
+                    ("with_note", Box::new(|r: Request| r.with_note("another note"))),
+                    ("with_date", Box::new(move |r: Request| r.with_date(&d0))),
+                    ("with_parameter twice, then note", Box::new(|r: Request| r.with_parameter("one", 1).with_parameter("two", "2").with_note("n")))];
+                for (what, edit) in &edits {
+                    let got = guarded(|| { let built: Envelope = edit(req.clone()).into(); let from_parsed: Envelope = edit(parsed.clone()).into(); (built, from_parsed) });
+                    match got {
+                        Ok((built, from_parsed)) => {
+                            c.check("parsed-then-edited", built.is_identical_to(&from_parsed), "request-roundtrip", || format!("{} after parsing: {} ; on the built value: {}", what, shape(&from_parsed), shape(&built)));
+                            let back = guarded(|| Request::try_from(from_parsed.clone()).ok());
+                            c.check("parsed-then-edited", matches!(&back, Ok(Some(p)) if *p == edit(req.clone())), "request-roundtrip", || format!("{} after parsing does not parse back to the edited request", what));
+                        }
+                        Err(site) => c.check("no-panic", false, "request-roundtrip", || site),
+                    }
+                }
+                c.count("branch:parsed-then-edited");
+            }
+        }
         // shape: subject tagged 40004 ARID, 'body' expression
         c.check("request-shape", renv.object_for_predicate(known_values::BODY).map(|b| b.is_identical_to(&env)).unwrap_or(false) && renv.assertions().len() == 1 + (!note.is_empty()) as usize + date.is_some() as usize, "request-shape", || shape(&renv));
         // wrong subject tag
@@ -1038,6 +1128,13 @@ pub fn c18(c: &mut Ctx, b: &Budget) {
             match guarded(|| Event::<String>::try_from(via.clone())) {
                 Ok(Ok(p)) => { let key = if date_kind == 3 { "fractional-date-roundtrip" } else { "event-roundtrip" }; c.check("event-roundtrip", p == ev, key, || format!("date {:?} -> {:?}", ev.date().map(|d| d.to_string()), p.date().map(|d| d.to_string()))) }
                 other => c.check("event-roundtrip", false, "event-roundtrip", || format!("{:?}", other.map(|r| r.map(|_| ()).map_err(|e| e.to_string())))),
+            }
+        }
+        if date_kind != 3 {
+            if let Ok(Ok(parsed)) = guarded(|| Event::<String>::try_from(eenv.clone())) {
+                let d0 = dcbor::Date::from_timestamp(86_400.0);
+                let got = guarded(|| { let a: Envelope = ev.clone().with_note("later").with_date(&d0).into(); let b2: Envelope = parsed.clone().with_note("later").with_date(&d0).into(); (a, b2) });
+                match got { Ok((a, b2)) => c.check("parsed-then-edited", a.is_identical_to(&b2), "event-roundtrip", || format!("note and date changed after parsing: {} ; on the built value: {}", shape(&b2), shape(&a))), Err(site) => c.check("no-panic", false, "event-roundtrip", || site) }
             }
         }
         // the one-line summary names the content of this event (and does not panic for any note / date)
